@@ -493,8 +493,14 @@ def compare_with_model(ctx, case, out, mline_out):
             fb, fmin, fmax, rb, rmin, rmax, tie = dec_snap(mode, mo)
             # infrastructure: Lean reference vs. Python mirror (implementation not involved)
             if not (same_bins(mode, rb, rsnap[0]) and same_val(mode, rmin, rsnap[1]) and same_val(mode, rmax, rsnap[2]) and tie == rtie):
-                raise InfraError("Lean reference and its Python mirror differ at step %d of %s: %r vs %r" % (
-                    step, json.dumps(core._jsonable(case))[:300], (rb, rmin, rmax, tie), (rsnap, rtie)))
+                # The Lean reference is assembled from arithmetic regenerated from the source, the mirror is fixed text:
+                # they differ when the source's formula changed.  That is an infrastructure error only if the oracle is
+                # silent on the whole run (decided in `settle_mirror`); with a failing input it is a consequence.
+                if not hasattr(ctx, "mirror_mismatch"):
+                    ctx.mirror_mismatch = "Lean reference and its Python mirror differ at step %d of %s: %s vs %s" % (
+                        step, json.dumps(core._jsonable(case))[:300], repr((rb, rmin, rmax, tie))[:400], repr((rsnap, rtie))[:400])
+                ctx.hit("lean-reference != python-mirror")
+                continue
             if f128:
                 ctx.hit("snap:after-dump(float128)")
                 continue
@@ -624,10 +630,17 @@ def record(ctx, c, o):
 
 # --------------------------------------------------------------------------- generators
 
-FAMILIES = ["dense", "sparse", "repeated", "negative", "integral", "wide", "grid"]
+FAMILIES = ["dense", "sparse", "repeated", "negative", "integral", "wide", "grid", "zero-edge", "zero-edge"]
+
+
+ZERO_EDGE = [0, 0, 0, 0.5, 1, 2, 3, 10, 11, 20, 35, 50]
 
 
 def gen_value(rng, fam):
+    if fam == "zero-edge+":  # zero is the minimum
+        return rng.choice([0.0, 0.0, -0.0] + [float(v) for v in ZERO_EDGE[3:]])
+    if fam == "zero-edge-":  # zero is the maximum
+        return rng.choice([0.0, -0.0, -0.0] + [-float(v) for v in ZERO_EDGE[3:]])
     if fam == "dense":
         return rng.uniform(0, 100)
     if fam == "sparse":
@@ -644,6 +657,12 @@ def gen_value(rng, fam):
 
 
 def gen_qvalue(rng, fam):
+    if fam in ("zero-edge+", "zero-edge-"):
+        v = rng.choice(ZERO_EDGE)
+        v = [int(v * 4), 4] if v != int(v) else int(v)
+        if fam == "zero-edge-":
+            v = [-v[0], v[1]] if isinstance(v, list) else -v
+        return v
     if fam in ("dense", "grid"):
         return [rng.randint(-500, 500), rng.choice([1, 2, 3, 4, 5, 7, 10])]
     if fam == "sparse":
@@ -679,6 +698,8 @@ def random_case(ctx, mode=None, size=None, want=None):
     rng = ctx.rng
     mode = mode or ("f" if rng.random() < 0.6 else "q")
     fam = rng.choice(FAMILIES)
+    if fam == "zero-edge":
+        fam = rng.choice(["zero-edge+", "zero-edge-"])
     gv = (lambda: gen_value(rng, fam)) if mode == "f" else (lambda: gen_qvalue(rng, fam))
     cap = gen_cap(rng)
     n = size if size is not None else rng.choice([3, 8, 20, 40, 80, 160])
@@ -758,6 +779,55 @@ def dl_heavy_case(ctx, mode=None):
     return {"mode": mode, "prog": prog, "family": "dl-heavy:" + fam, "snap_every": 7}
 
 
+def zero_extreme_case(ctx, mode=None):
+    """`+` (and merge / bulk load / update) around an exact zero bound — the truthiness trap: one operand's true
+    minimum (or maximum) is exactly 0 / -0.0 / a numpy zero, it is compressed so that zero is no longer a centre of its
+    own, and the other operand does not cover that bound."""
+    rng = ctx.rng
+    mode = mode or ("f" if rng.random() < 0.6 else "q")
+    sgn = rng.choice([1, -1])  # +1: zero is the minimum of the zero operand; -1: zero is its maximum
+
+    def val(x):
+        x = sgn * x
+        if mode == "q":
+            return [int(x * 4), 4] if x != int(x) else int(x)
+        return float(x)
+
+    zero = 0 if mode == "q" else rng.choice([0.0, 0.0, -0.0])
+    capz = rng.randint(2, 4)
+    vals = [zero, val(rng.choice([0.25, 0.5, 1]))] + [val(v) for v in rng.sample(range(8, 60), rng.randint(capz, capz + 4))]
+    rng.shuffle(vals)
+    capo = rng.randint(2, 6)
+    others = [val(rng.choice([3, 4, 5, 6, 7, 25, 40, 41.5])) for _ in range(rng.randint(1, 8))]
+    zero_reg, other_reg = rng.choice([(1, 0), (1, 0), (0, 1)])  # mostly the zero operand on the right
+    prog = []
+    for reg in (0, 1):
+        is_zero = reg == zero_reg
+        prog.append(["new", reg, capz if is_zero else capo])
+        src = vals if is_zero else others
+        if rng.random() < 0.3:
+            kind = "i8" if mode == "f" and all(float(v) == int(float(v)) for v in (src if mode == "f" else [])) and rng.random() < 0.5 else "f8"
+            if mode == "q" and len(set(map(repr, src))) > 2 * 5:
+                src = src[:8]
+            prog.append(["bulk", reg, list(src), kind])
+        else:
+            for v in src:
+                prog.append(["upd", reg, v, gen_count(rng)])
+    how = rng.random()
+    prog.append(["merge" if how < 0.1 else "add", 0, 1])
+    for _ in range(rng.randint(0, 4)):
+        r = rng.random()
+        if r < 0.5:
+            prog.append(["upd", 0, rng.choice(others), 1])
+        elif r < 0.8:
+            prog.append(["bulk", 0, [rng.choice(others) for _ in range(rng.randint(1, 6))], "f8"])
+        else:
+            prog.append(["dl", 0, 2])
+            prog.append(["upd", 2, rng.choice(others), 1])
+            break
+    return {"mode": mode, "prog": prog, "family": "zero-extreme:" + ("min" if sgn > 0 else "max"), "snap_every": 1}
+
+
 def small_exhaustive(ctx):
     """All update histories of length <= L over a tiny value alphabet, caps 2..3, exact mode."""
     import itertools
@@ -780,6 +850,11 @@ BOUNDARY = [
     # a full histogram (default limit) loaded back: the next insert must merge the closest pair (48, 48.5), not bins 0 and 1
     {"mode": "q", "family": "boundary", "prog": [["new", 0, 50]] + [["upd", 0, 10 * v, 1] for v in range(49)] + [["upd", 0, [961, 2], 1], ["dl", 0, 1], ["upd", 1, 1005, 1], ["upd", 1, 255, 1], ["upd", 1, 256, 1]]},
     {"mode": "f", "family": "boundary", "prog": [["new", 0, 50]] + [["upd", 0, 10.0 * v, 1] for v in range(49)] + [["upd", 0, 480.5, 1], ["dl", 0, 1], ["upd", 1, 1005.0, 1], ["upd", 1, 255.0, 1], ["upd", 1, 256.0, 1]]},
+    # `+` with an operand whose exact minimum / maximum is zero and has been merged away (truthiness trap)
+    {"mode": "f", "family": "boundary", "prog": [["new", 0, 3]] + [["upd", 0, float(v), 1] for v in (5, 6, 7, 8)] + [["new", 1, 2]] + [["upd", 1, float(v), 1] for v in (0, 1, 10, 11)] + [["add", 0, 1]]},
+    {"mode": "f", "family": "boundary", "prog": [["new", 0, 3]] + [["upd", 0, float(v), 1] for v in (-5, -6, -7, -8)] + [["new", 1, 2]] + [["upd", 1, v, 1] for v in (-0.0, -1.0, -10.0, -11.0)] + [["add", 0, 1]]},
+    {"mode": "q", "family": "boundary", "prog": [["new", 0, 2]] + [["upd", 0, v, 1] for v in (0, 1, 10, 11)] + [["new", 1, 3]] + [["upd", 1, v, 1] for v in (5, 6, 7, 8)] + [["add", 0, 1], ["bulk", 0, [5, 6], "f8"], ["upd", 0, 7, 1]]},
+    {"mode": "f", "family": "boundary", "prog": [["new", 0, 3]] + [["upd", 0, float(v), 1] for v in (5, 6, 7, 8)] + [["new", 1, 2], ["bulk", 1, [0.0, 1.0, 10.0, 11.0, 0.0], "f8"], ["add", 0, 1]]},
     # adding an empty histogram
     {"mode": "f", "family": "boundary", "prog": [["new", 0, 4], ["upd", 0, 1.0, 1], ["new", 1, 4], ["add", 0, 1], ["upd", 0, 2.0, 1]]},
     {"mode": "f", "family": "boundary", "prog": [["new", 0, 4], ["new", 1, 4], ["upd", 1, 1.0, 1], ["add", 0, 1], ["upd", 0, 2.0, 1]]},
@@ -824,19 +899,30 @@ def run(ctx):
     n_random = ctx.scale(2500, 28000)
     done = 0
     while done < n_random and ctx.time_left() > ctx.scale(5, 170):
-        cases = [random_case(ctx) for _ in range(92)] + [dl_heavy_case(ctx) for _ in range(8)]
+        cases = [random_case(ctx) for _ in range(84)] + [dl_heavy_case(ctx) for _ in range(8)] + [zero_extreme_case(ctx) for _ in range(8)]
         evaluate(ctx, cases)
         done += len(cases)
         if ctx.violations:
             break
     ctx.note("random_programs", done)
+    settle_mirror(ctx)
+
+
+def settle_mirror(ctx):
+    m = getattr(ctx, "mirror_mismatch", None)
+    if m is None:
+        return
+    if ctx.violations or ctx.disagreements:
+        ctx.note("lean_reference_vs_mirror", "differ (the regenerated arithmetic changed; see the failing input / proof failures): " + m[:600])
+        return
+    raise InfraError(m)
 
 
 def intensify(ctx):
     t_end = ctx.time_left() - 5
     n = 0
     while ctx.time_left() > max(5, t_end - 50) and n < 3000 and not ctx.violations:
-        evaluate(ctx, [random_case(ctx) for _ in range(90)] + [dl_heavy_case(ctx) for _ in range(10)])
+        evaluate(ctx, [random_case(ctx) for _ in range(80)] + [dl_heavy_case(ctx) for _ in range(10)] + [zero_extreme_case(ctx) for _ in range(10)])
         n += 100
 
 
@@ -844,6 +930,7 @@ def replay(ctx, case):
     case = dict(case)
     case.setdefault("snap_every", 1)
     evaluate(ctx, [case])
+    settle_mirror(ctx)
 
 
 def _k01(case, failure):
